@@ -171,3 +171,128 @@ Theorem k__overlap_split_negative_interval_size_repaired :
   run 200 k__overlap_split w_overlap_negative
   = Return [Ar (A2 DFlt 1 2 [fl 0 1; fl (-1) 1])].
 Proof. vm_compute. reflexivity. Qed.
+
+(* 4. HISTORY (repaired since: the test that decides whether a bin is reported is now
+   `np.round(2 * lbound + bin_size, 9) > 2 * ends[k]`, the doubled exact centre against the doubled end; the
+   repaired kernels are the ones in Gen/Kernels.v, proved to compute the functional models count_binned /
+   bin_sum_cnt for EVERY bin size > 0, Inv/Jitcount_func.v and Inv/Jitbin_array_func.v).  Before the repair
+   jitcount and _jitbin_array compared the bin centre ROUNDED to a whole nanosecond with the end of the
+   interval (`xpos = np.round(lbound + bin_size / 2, 9); if xpos > ends[k]`): for an odd number of ns the
+   centre lies on a half tick, np.round (half to even) moves a centre half a tick beyond the end onto the end,
+   and that bin was reported although its exact centre exceeds the end.  With ts = [0 ns], the interval
+   [0, 0] and bin_size = 1 ns the old kernels report one bin (centre 0, count 1 / mean of the sample), the
+   property and the repaired kernels none. *)
+(* the kernels as translated from the source BEFORE the repair (`if xpos > ends[k]`); frozen here because
+   Gen/Kernels.v follows the current source *)
+(* jitcount: pynapple/core/_jitted_functions.py:186  sha256(normalised ast) = 310a9fd0a4b5732d43da51a60c27ec707453061e604b65d5e69be18679b3e57f  sites = 15
+   labels (statement@source line): 0=call@187 1=for@193 2=if@194 3=while@207 4=while@212 5=if@214 6=while@219 7=if@220 *)
+Definition k_jitcount_before_fix : func :=
+  mkFunc "jitcount"
+  ["time_array"; "starts"; "ends"; "bin_size"]
+  ["idx"; "countin"; "m"; "nb_bins"; "k"; "nb"; "bins"; "cnt"; "t"; "b"; "maxb"; "maxt"; "lbound"; "xpos"; "rbound"; "new_time_array"; "new_data_array"]
+  (seq [SCall 0%nat [TVar "idx"; TVar "countin"] "jitrestrict_with_count" [AVar "time_array"; AVar "starts"; AVar "ends"];
+SGather 0%nat "time_array" "time_array" "idx";
+SAssign "m" (ELen "starts");
+SNew1 "nb_bins" DInt (EVar "m") (EInt (0)%Z);
+SFor 1%nat "k" (EInt (0)%Z) (EVar "m")
+ (seq [SIf 2%nat (ECmp Gt (EBin Sub (ERead1 1%nat "ends" (EVar "k")) (ERead1 2%nat "starts" (EVar "k"))) (EVar "bin_size"))
+ (seq [SStore1 5%nat "nb_bins" (EVar "k") (EUn ToInt (EUn Ceil (EBin Div (EBin Sub (EBin Add (ERead1 3%nat "ends" (EVar "k")) (EVar "bin_size")) (ERead1 4%nat "starts" (EVar "k"))) (EVar "bin_size"))))])
+ (seq [SStore1 6%nat "nb_bins" (EVar "k") (EInt (1)%Z)])]);
+SAssign "nb" (ESumAll "nb_bins");
+SNew1 "bins" DFlt (EVar "nb") (EInt (0)%Z);
+SNew1 "cnt" DInt (EVar "nb") (EInt (0)%Z);
+SAssign "k" (EInt (0)%Z);
+SAssign "t" (EInt (0)%Z);
+SAssign "b" (EInt (0)%Z);
+SWhile 3%nat (ECmp Lt (EVar "k") (EVar "m"))
+ (seq [SAssign "maxb" (EBin Add (EVar "b") (ERead1 7%nat "nb_bins" (EVar "k")));
+SAssign "maxt" (EBin Add (EVar "t") (ERead1 8%nat "countin" (EVar "k")));
+SAssign "lbound" (ERead1 9%nat "starts" (EVar "k"));
+SWhile 4%nat (ECmp Lt (EVar "b") (EVar "maxb"))
+ (seq [SAssign "xpos" (EUn Round9 (EBin Add (EVar "lbound") (EBin Div (EVar "bin_size") (EInt (2)%Z))));
+SIf 5%nat (ECmp Gt (EVar "xpos") (ERead1 10%nat "ends" (EVar "k")))
+ (seq [SBreak])
+ (seq [SStore1 11%nat "bins" (EVar "b") (EVar "xpos");
+SAssign "rbound" (EUn Round9 (EBin Add (EVar "lbound") (EVar "bin_size")));
+SWhile 6%nat (ECmp Lt (EVar "t") (EVar "maxt"))
+ (seq [SIf 7%nat (ECmp Lt (ERead1 12%nat "time_array" (EVar "t")) (EVar "rbound"))
+ (seq [SStore1 14%nat "cnt" (EVar "b") (EBin Add (ERead1 13%nat "cnt" (EVar "b")) (EInt (1)%Z));
+SAssign "t" (EBin Add (EVar "t") (EInt (1)%Z))])
+ (seq [SBreak])]);
+SAssign "lbound" (EBin Add (EVar "lbound") (EVar "bin_size"));
+SAssign "lbound" (EUn Round9 (EVar "lbound"));
+SAssign "b" (EBin Add (EVar "b") (EInt (1)%Z))])]);
+SAssign "t" (EVar "maxt");
+SAssign "k" (EBin Add (EVar "k") (EInt (1)%Z))]);
+SSlice "new_time_array" "bins" (EInt (0)%Z) (EVar "b");
+SSlice "new_data_array" "cnt" (EInt (0)%Z) (EVar "b");
+SReturn [AVar "new_time_array"; AVar "new_data_array"]]).
+
+(* _jitbin_array: pynapple/core/_jitted_functions.py:371  sha256(normalised ast) = f9ac6aa3c5ad6c94b40c8ec14722587895a90a4bab6f3363f030663661371de4  sites = 18
+   labels (statement@source line): 0=for@376 1=if@377 2=while@391 3=while@396 4=if@398 5=while@403 6=if@404 *)
+Definition k__jitbin_array_before_fix : func :=
+  mkFunc "_jitbin_array"
+  ["countin"; "time_array"; "data_array"; "starts"; "ends"; "bin_size"]
+  ["m"; "nb_bins"; "k"; "nb"; "bins"; "cnt"; "average"; "t"; "b"; "maxb"; "maxt"; "lbound"; "xpos"; "rbound"; "new_time_array"; "_t0"; "_t1"; "new_data_array"]
+  (seq [SAssign "m" (ELen "starts");
+SNew1 "nb_bins" DInt (EVar "m") (EInt (0)%Z);
+SFor 0%nat "k" (EInt (0)%Z) (EVar "m")
+ (seq [SIf 1%nat (ECmp Gt (EBin Sub (ERead1 0%nat "ends" (EVar "k")) (ERead1 1%nat "starts" (EVar "k"))) (EVar "bin_size"))
+ (seq [SStore1 4%nat "nb_bins" (EVar "k") (EUn ToInt (EUn Ceil (EBin Div (EBin Sub (EBin Add (ERead1 2%nat "ends" (EVar "k")) (EVar "bin_size")) (ERead1 3%nat "starts" (EVar "k"))) (EVar "bin_size"))))])
+ (seq [SStore1 5%nat "nb_bins" (EVar "k") (EInt (1)%Z)])]);
+SAssign "nb" (ESumAll "nb_bins");
+SNew1 "bins" DFlt (EVar "nb") (EInt (0)%Z);
+SNew1 "cnt" DFlt (EVar "nb") (EInt (0)%Z);
+SNew1 "average" DFlt (EVar "nb") (EInt (0)%Z);
+SAssign "k" (EInt (0)%Z);
+SAssign "t" (EInt (0)%Z);
+SAssign "b" (EInt (0)%Z);
+SWhile 2%nat (ECmp Lt (EVar "k") (EVar "m"))
+ (seq [SAssign "maxb" (EBin Add (EVar "b") (ERead1 6%nat "nb_bins" (EVar "k")));
+SAssign "maxt" (EBin Add (EVar "t") (ERead1 7%nat "countin" (EVar "k")));
+SAssign "lbound" (ERead1 8%nat "starts" (EVar "k"));
+SWhile 3%nat (ECmp Lt (EVar "b") (EVar "maxb"))
+ (seq [SAssign "xpos" (EUn Round9 (EBin Add (EVar "lbound") (EBin Div (EVar "bin_size") (EInt (2)%Z))));
+SIf 4%nat (ECmp Gt (EVar "xpos") (ERead1 9%nat "ends" (EVar "k")))
+ (seq [SBreak])
+ (seq [SStore1 10%nat "bins" (EVar "b") (EVar "xpos");
+SAssign "rbound" (EUn Round9 (EBin Add (EVar "lbound") (EVar "bin_size")));
+SWhile 5%nat (ECmp Lt (EVar "t") (EVar "maxt"))
+ (seq [SIf 6%nat (ECmp Lt (ERead1 11%nat "time_array" (EVar "t")) (EVar "rbound"))
+ (seq [SStore1 13%nat "cnt" (EVar "b") (EBin Add (ERead1 12%nat "cnt" (EVar "b")) (EFlt (1 # 1)%Q));
+SStore1 16%nat "average" (EVar "b") (EBin Add (ERead1 14%nat "average" (EVar "b")) (ERead1 15%nat "data_array" (EVar "t")));
+SAssign "t" (EBin Add (EVar "t") (EInt (1)%Z))])
+ (seq [SBreak])]);
+SAssign "lbound" (EBin Add (EVar "lbound") (EVar "bin_size"));
+SAssign "lbound" (EUn Round9 (EVar "lbound"));
+SAssign "b" (EBin Add (EVar "b") (EInt (1)%Z))])]);
+SAssign "t" (EVar "maxt");
+SAssign "k" (EBin Add (EVar "k") (EInt (1)%Z))]);
+SSlice "new_time_array" "bins" (EInt (0)%Z) (EVar "b");
+SSlice "_t0" "average" (EInt (0)%Z) (EVar "b");
+SSlice "_t1" "cnt" (EInt (0)%Z) (EVar "b");
+SArrDiv 17%nat "new_data_array" "_t0" "_t1";
+SReturn [AVar "new_time_array"; AVar "new_data_array"]]).
+
+Definition ns (n : Z) : sval := VFlt (Some (Qred (n # 1000000000))).
+Definition w_count_odd : list value :=
+  [Ar (A1 DFlt [ns 0]); Ar (A1 DFlt [ns 0]); Ar (A1 DFlt [ns 0]); Sc (ns 1)].
+Definition w_bin_array_odd : list value :=
+  [Ar (A1 DInt [VInt 1]); Ar (A1 DFlt [ns 0]); Ar (A1 DFlt [fl 9 1]);
+   Ar (A1 DFlt [ns 0]); Ar (A1 DFlt [ns 0]); Sc (ns 1)].
+
+(* one bin, whose exact centre 0.5 ns lies beyond the end 0 ns *)
+Theorem k_jitcount_odd_bin_size_refuted :
+  run 200 k_jitcount_before_fix w_count_odd = Return [Ar (A1 DFlt [fl 0 1]); Ar (A1 DInt [VInt 1])].
+Proof. vm_compute. reflexivity. Qed.
+Theorem k__jitbin_array_odd_bin_size_refuted :
+  run 300 k__jitbin_array_before_fix w_bin_array_odd = Return [Ar (A1 DFlt [fl 0 1]); Ar (A1 DFlt [fl 9 1])].
+Proof. vm_compute. reflexivity. Qed.
+
+(* the repaired kernels on the same arguments: no bin *)
+Theorem k_jitcount_odd_bin_size_repaired :
+  run 200 k_jitcount w_count_odd = Return [Ar (A1 DFlt []); Ar (A1 DInt [])].
+Proof. vm_compute. reflexivity. Qed.
+Theorem k__jitbin_array_odd_bin_size_repaired :
+  run 300 k__jitbin_array w_bin_array_odd = Return [Ar (A1 DFlt []); Ar (A1 DFlt [])].
+Proof. vm_compute. reflexivity. Qed.
